@@ -14,7 +14,13 @@ THRESH = 1e-6
 EPS = 1e-9
 
 
-def load_repo(repo):
+REPO = None
+
+
+def load_repo(repo=None):
+    global REPO
+    repo = repo or REPO
+    REPO = repo
     if repo not in sys.path:
         sys.path.insert(0, repo)
     mods = {}
